@@ -7,6 +7,7 @@
   + IdMap::load + replay_graph_transactions with the `txid ≤ checkpoint_txid` skip).
 -/
 import Nervus.Proofs.CheckpointHist
+import Nervus.Proofs.CheckpointTail
 import Nervus.Model.Triggers
 namespace Nervus.Props.C04
 open Nervus Nervus.Storage
@@ -81,6 +82,42 @@ theorem C04_partial_ckpt (h : List Op) (hwf : GraphSpec.wellFormed h = true)
     exact ⟨r1, fun n => congrFun r10 n, fun n => congrFun r11 n, fun x => congrFun r12 x, r6, r7, r4, r5⟩
   exact ⟨s, s', s'', u, hrun, hopen, hclose, sc (hP'.eqv.trans hP.eqv.symm), sc (hP''.eqv.trans hP.eqv.symm),
     hrunu, hP.sim.reads _, sc hP.eqv, hP.root, hP'.root, hP''.root⟩
+
+/-- **C04 (proved part, label operations behind the last checkpoint)**.  For every history `h₁ ++ h₂`
+    where `h₁` is as in `C04_partial_ckpt` (compactions, log-rewriting closes, no label operations) and the
+    tail `h₂` holds transactions WITH label operations (add / remove, any number), reopens, closes that
+    find unflushed runs (then `checkpoint_on_close` only flushes, the log stays) and compactions with
+    nothing to compact (`tailSafe`) — i.e. no checkpoint FOLLOWS a label operation, which is exactly what the
+    finding `C04-label-change-lost-after-checkpoint` needs —: the history runs, a further reopen succeeds and
+    changes no read, and all reads before and after it agree with the Spec graph (all labels included). -/
+theorem C04_partial_ckpt_labels (h₁ h₂ : List Op) (hwf : GraphSpec.wellFormed (h₁ ++ h₂) = true)
+    (hk : GraphSpec.noC06Trigger (h₁ ++ h₂) = true) (hsz : histSize (h₁ ++ h₂) ≤ labelMax)
+    (hs : ckptTailSafe h₁ h₂ = true) :
+    ∃ s s', Storage.run Cfg.current (h₁ ++ h₂) = .ok s ∧ s.reopen = .ok s' ∧ SameContent s s' ∧
+      ReadsAgree Cfg.current s (GraphSpec.run (h₁ ++ h₂)) ∧ ReadsAgree Cfg.current s' (GraphSpec.run (h₁ ++ h₂)) := by
+  simp only [GraphSpec.noC06Trigger, Bool.and_eq_true, Bool.not_eq_true'] at hk
+  obtain ⟨⟨⟨k1, k2⟩, k3⟩, k4⟩ := hk
+  obtain ⟨s, u, hrun, _, hP⟩ := hist_ckpt_tail h₁ h₂ hs hwf hsz k1 k2 k3 k4
+  obtain ⟨s', hopen, hP'⟩ := hP.reopen
+  have sc : ∀ {a b : Engine}, Eqv Cfg.current a b → SameContent b a := by
+    intro a b hE
+    obtain ⟨r1, _, _, r4, r5, r6, r7, _, _, _, r10, r11, r12, _, _⟩ := hE.reads
+    exact ⟨r1, fun n => congrFun r10 n, fun n => congrFun r11 n, fun x => congrFun r12 x, r6, r7, r4, r5⟩
+  exact ⟨s, s', hrun, hopen, sc (hP'.eqv.trans hP.eqv.symm), ReadsAgree.of_eqv hP.eqv (hP.sim.reads _),
+    ReadsAgree.of_eqv hP'.eqv (hP'.sim.reads _)⟩
+
+/-- non-vacuity: compaction and a log-rewriting close first, then label additions and removals, a reopen, a
+    close over unflushed runs, more label operations -/
+def hLabelsTail₁ : List Op :=
+  [ .tx [.node 10 (some 321), .node 11 none, .edge 0 338 1, .nprop 0 363 7] true, .compact, .close ]
+def hLabelsTail₂ : List Op :=
+  [ .tx [.labelAdd 0 322, .labelAdd 1 321, .nprop 1 363 2] true, .reopen,
+    .tx [.labelDel 0 321, .node 12 (some 323), .labelAdd 2 322] true, .close,
+    .tx [.labelDel 1 321] true, .reopen ]
+
+example : ckptTailSafe hLabelsTail₁ hLabelsTail₂ = true ∧ GraphSpec.wellFormed (hLabelsTail₁ ++ hLabelsTail₂) = true ∧
+    GraphSpec.noC06Trigger (hLabelsTail₁ ++ hLabelsTail₂) = true ∧ histSize (hLabelsTail₁ ++ hLabelsTail₂) ≤ labelMax := by
+  decide
 
 /-! ### the node table reloads exactly what was written, for every size (seed C04-seed2) -/
 
